@@ -13,6 +13,7 @@ import (
 	"sort"
 	"strings"
 	"sync"
+	"sync/atomic"
 	"time"
 
 	"golang.org/x/tools/go/packages"
@@ -32,6 +33,7 @@ type Options struct {
 	Verbose    bool
 	StopOnViol bool
 	Deadline   time.Time
+	sampleMin  *int64
 }
 
 type World struct {
@@ -121,29 +123,30 @@ func (w *World) TargetPackages() []string {
 
 // HarnessResult aggregates all paths of one harness.
 type HarnessResult struct {
-	Harness      string         `json:"harness"`
-	Paths        int            `json:"paths"`
-	Status       map[string]int `json:"status"` // ok / infeasible / bound / unsupported / unknown / violation / panic / exit / engine
-	Forks        int            `json:"forks"`
-	Steps        int64          `json:"steps"`
-	MaxPathSteps int64          `json:"max_path_steps"`
-	Obligations  int            `json:"obligations"`
-	Discharged   int            `json:"discharged"`
-	Queries      int            `json:"queries"`
-	Sat          int            `json:"sat"`
-	Unsat        int            `json:"unsat"`
-	Unknown      int            `json:"unknown"`
-	SolverS      float64        `json:"solver_s"`
-	WallS        float64        `json:"wall_s"`
-	Covers       map[string]int `json:"covers"`
-	Violations   []Violation    `json:"violations"`
-	Inconclusive []string       `json:"inconclusive"`
-	Messages     map[string]int `json:"messages"` // abort messages by text (bound/unsupported/engine)
-	Samples      []PathSample   `json:"samples"`
-	Funcs        []string       `json:"funcs"`
-	Complete     bool           `json:"complete"`
-	PathLimit    bool           `json:"path_limit_hit"`
-	Outputs      map[string]int `json:"outputs,omitempty"` // verifOutput digests -> path count
+	Harness      string            `json:"harness"`
+	Paths        int               `json:"paths"`
+	Status       map[string]int    `json:"status"` // ok / infeasible / bound / unsupported / unknown / violation / panic / exit / engine
+	Forks        int               `json:"forks"`
+	Steps        int64             `json:"steps"`
+	MaxPathSteps int64             `json:"max_path_steps"`
+	Obligations  int               `json:"obligations"`
+	Discharged   int               `json:"discharged"`
+	Queries      int               `json:"queries"`
+	Sat          int               `json:"sat"`
+	Unsat        int               `json:"unsat"`
+	Unknown      int               `json:"unknown"`
+	SolverS      float64           `json:"solver_s"`
+	WallS        float64           `json:"wall_s"`
+	Covers       map[string]int    `json:"covers"`
+	Violations   []Violation       `json:"violations"`
+	Inconclusive []string          `json:"inconclusive"`
+	Messages     map[string]int    `json:"messages"` // abort messages by text (bound/unsupported/engine)
+	Samples      []PathSample      `json:"samples"`
+	Funcs        []string          `json:"funcs"`
+	Complete     bool              `json:"complete"`
+	PathLimit    bool              `json:"path_limit_hit"`
+	Outputs      map[string]int    `json:"outputs,omitempty"` // verifOutput digests -> path count
+	OutTexts     map[string]string `json:"out_texts,omitempty"`
 }
 
 type PathSample struct {
@@ -164,12 +167,14 @@ type worker struct {
 func (w *World) Explore(fn *ssa.Function, opt Options) *HarnessResult {
 	t0 := time.Now()
 	res := &HarnessResult{Harness: fn.Name(), Status: map[string]int{}, Covers: map[string]int{},
-		Messages: map[string]int{}, Outputs: map[string]int{}}
+		Messages: map[string]int{}, Outputs: map[string]int{}, OutTexts: map[string]string{}}
 	funcs := map[*ssa.Function]bool{}
 	var mu sync.Mutex
 	cond := sync.NewCond(&mu)
 	queue := [][]int{nil}
 	active := 0
+	sampleMin := int64(-1)
+	opt.sampleMin = &sampleMin
 	stop := false
 
 	nw := opt.Workers
@@ -243,8 +248,11 @@ func (w *World) Explore(fn *ssa.Function, opt Options) *HarnessResult {
 				for f := range ps.funcs {
 					funcs[f] = true
 				}
-				for _, o := range ps.outputs {
+				for k, o := range ps.outputs {
 					res.Outputs[o]++
+					if _, ok := res.OutTexts[o]; !ok && len(res.OutTexts) < 64 {
+						res.OutTexts[o] = ps.outTexts[k]
+					}
 				}
 				switch ps.status {
 				case "bound", "unsupported", "engine", "unknown":
@@ -261,8 +269,30 @@ func (w *World) Explore(fn *ssa.Function, opt Options) *HarnessResult {
 						res.Violations = append(res.Violations, v)
 					}
 				}
-				if ps.sample != nil && len(res.Samples) < opt.Samples {
-					res.Samples = append(res.Samples, *ps.sample)
+				if ps.sample != nil {
+					// keep the opt.Samples paths with the most decisions
+					if len(res.Samples) < opt.Samples {
+						res.Samples = append(res.Samples, *ps.sample)
+					} else {
+						mi := 0
+						for k := range res.Samples {
+							if res.Samples[k].Decisions < res.Samples[mi].Decisions {
+								mi = k
+							}
+						}
+						if ps.sample.Decisions > res.Samples[mi].Decisions {
+							res.Samples[mi] = *ps.sample
+						}
+					}
+					if len(res.Samples) == opt.Samples {
+						m := res.Samples[0].Decisions
+						for _, sm := range res.Samples {
+							if sm.Decisions < m {
+								m = sm.Decisions
+							}
+						}
+						atomic.StoreInt64(&sampleMin, int64(m))
+					}
 				}
 				queue = append(queue, ps.forks...)
 				if opt.MaxPaths > 0 && res.Paths+active >= opt.MaxPaths && len(queue) > 0 {
@@ -339,27 +369,15 @@ func (w *World) runPath(wk *worker, fn *ssa.Function, prefix []int, opt Options)
 		case targetPanic:
 			ps.status, ps.statusMsg = "panic", "panic: "+i.show(p.v)
 			ps.recordViolation("panic", ps.statusMsg, ps.currentModel(), lastFrame)
-		case runtime.Error:
-			if _, ok := p.(*runtime.TypeAssertionError); ok {
-				ps.status, ps.statusMsg = "engine", p.Error()+"\n"+string(debug.Stack())
-			} else {
-				ps.status, ps.statusMsg = "panic", "runtime error (engine-level): "+p.Error()
-				ps.recordViolation("panic", ps.statusMsg, ps.currentModel(), lastFrame)
-			}
-		case string:
-			if strings.HasPrefix(p, "runtime error") || strings.HasPrefix(p, "interface conversion") ||
-				strings.HasPrefix(p, "assignment to entry in nil map") || strings.HasPrefix(p, "value method") {
-				ps.status, ps.statusMsg = "panic", p
-				ps.recordViolation("panic", p, ps.currentModel(), lastFrame)
-			} else {
-				ps.status, ps.statusMsg = "engine", p
-			}
+		case rtPanic:
+			ps.status, ps.statusMsg = "panic", string(p)
+			ps.recordViolation("panic", string(p), ps.currentModel(), lastFrame)
 		default:
 			ps.status, ps.statusMsg = "engine", fmt.Sprintf("%T: %v\n%s", p, p, debug.Stack())
 		}
-		if opt.Samples > 0 && (ps.status == "ok" || ps.status == "bound") {
+		if opt.Samples > 0 && (ps.status == "ok" || ps.status == "bound") && int64(len(ps.taken)) > atomic.LoadInt64(opt.sampleMin) {
 			s := &PathSample{Status: ps.status, Assignment: map[string]uint64{}, Notes: ps.notes, Steps: ps.steps, Decisions: len(ps.taken)}
-			if len(ps.vars) > 0 && wk.id == 0 {
+			if len(ps.vars) > 0 {
 				if m := ps.currentModel(); m != nil {
 					for _, sv := range ps.vars {
 						s.Assignment[sv.name] = m[sv.t.name]
